@@ -141,11 +141,21 @@ def main(argv=None):
         lean_stage(prop, ctx, res)
         prop.run(ctx, res)
     except Exception as e:
-        log(traceback.format_exc())
-        print(f"INFRASTRUCTURE-ERROR property={pid} {type(e).__name__}: {e}")
-        res.notes.append("infrastructure error: " + traceback.format_exc()[-2000:])
-        common.write_evidence(res, 0)
-        return 2
+        tb = traceback.format_exc()
+        log(tb)
+        lib = os.path.join(os.path.realpath(common.REPO), "src", "jaqalpaq")
+        raised_in_library = any(os.path.realpath(fr.filename).startswith(lib) for fr in traceback.extract_tb(e.__traceback__))
+        if raised_in_library:
+            # the real code raised something the property module cannot digest (it does not on the tree the
+            # module was written against): the tie between model / oracle and implementation is broken
+            res.notes.append("property module stopped by an exception raised inside the library: " + tb[-2000:])
+            res.failures.append({"kind": "corr", "what": "property-module:crash", "case": None, "model": None,
+                                 "impl": f"{type(e).__name__}: {e}", "module": None, "detail": tb[-1500:]})
+        else:
+            print(f"INFRASTRUCTURE-ERROR property={pid} {type(e).__name__}: {e}")
+            res.notes.append("infrastructure error: " + tb[-2000:])
+            common.write_evidence(res, 0)
+            return 2
 
     known, new = classify(prop, res)
     # report each known finding once
